@@ -1,2 +1,3 @@
 import MillerModel.Props.C06
 import MillerModel.Props.C07
+import MillerModel.Props.C08
